@@ -68,6 +68,8 @@ class RealWorld(pipe.PipeWorld):
         self.written = {}  # (alg, target, value) -> list of contents written, in order
         self.units_run = 0
         self.gaps = [0.0, 5.0, 30.0, 120.0]
+        self.expected_status = {}
+        self.any_failure = False
 
     # -- construction ------------------------------------------------------------------------------
     def build(self):
@@ -127,6 +129,7 @@ class RealWorld(pipe.PipeWorld):
                     for vn in sorted(data[tn][fsvn].keys()):
                         ins.append((tn, fsvn, vn, getattr(data[tn][fsvn][vn], 'content', None)))
         epoch = self.epochs[(a.full, target)]
+        self.raise_if_chosen(a.full, target)
         for svobj in alg.state_vectors():
             for vn in sorted(svobj):
                 content = aegen.content_hash(a.full, svobj.name(), vn, target, tuple(sorted(map(repr, ins))), epoch)
@@ -135,6 +138,42 @@ class RealWorld(pipe.PipeWorld):
         self.units_run += 1
         self.probes['real_unit_run'] += 1
         (data if kind == 'task' else data.ds()).update()
+
+    # -- the science may fail: ordinary exception, invalid data, or an exit/interrupt raised inside the algorithm ------
+    OUTCOMES = [('ok', None), ('ok', None), ('ok', None), ('ok', None),
+                ('RuntimeError', False), ('NoValidOutputDataError', None), ('NoValidInputDataError', None),
+                ('SystemExit', False), ('KeyboardInterrupt', False)]
+
+    def raise_if_chosen(self, full, target):
+        if not self.cfg.get('failing'):
+            return
+        import dawgie
+
+        kind, status = self.OUTCOMES[self.ch.choose('rw.outcome', len(self.OUTCOMES))]
+        self.expected_status[(full, target)] = (kind, True if kind == 'ok' else status)
+        if kind == 'ok':
+            return
+        self.any_failure = True
+        self.probes['real_unit_raises_' + kind] += 1
+        self.op(f'{full}[{target}] raises {kind}')
+        exc = {'RuntimeError': RuntimeError, 'SystemExit': SystemExit, 'KeyboardInterrupt': KeyboardInterrupt,
+               'NoValidOutputDataError': dawgie.NoValidOutputDataError, 'NoValidInputDataError': dawgie.NoValidInputDataError}[kind]
+        raise exc(f'sim: {kind} inside {full}[{target}]')
+
+    def on_reply(self, msg):
+        # C05 at the worker's side of the wire: what the real worker reports is what happened to the run
+        t = msg.incarnation if msg.incarnation else ALL
+        exp = self.expected_status.pop((msg.jobid, t), None)
+        if exp is not None:
+            kind, status = exp
+            if msg.success is not status:
+                name = {True: 'success', False: 'failure', None: 'invalid'}
+                self.violate('C05', 'outcome_misreported_by_worker', f'{kind}:reported_{name[msg.success]}',
+                             f'{msg.jobid}[{t}] ended with {kind} inside the algorithm; the worker reported {name[msg.success]} '
+                             f'(new values {[v for v, n in (msg.values or []) if n]}), it has to report {name[status]}')
+            else:
+                self.probes['real_outcome_reported_right'] += 1
+        return super().on_reply(msg)
 
     # -- workers ----------------------------------------------------------------------------------------
     def worker_body(self, idx):
@@ -152,6 +191,9 @@ class RealWorld(pipe.PipeWorld):
                     th.park(until=self.sim.now + 3.0, label='worker.retry')
                 except ConnectionRefusedError:
                     th.park(until=self.sim.now + 5.0, label='worker.retry')
+                except (SystemExit, KeyboardInterrupt):  # escaped the worker's run: the process is gone, a new one starts
+                    self.probes['worker_process_exited'] += 1
+                    th.park(until=self.sim.now + 1.0, label='worker.restart')
         return body
 
     finished = False
@@ -228,6 +270,9 @@ class RealWorld(pipe.PipeWorld):
             self.probes['drain_' + r] += 1
             return
         self.probes['quiesced'] += 1
+        if self.any_failure:
+            self.probes['end_state_not_compared_after_failures'] += 1  # 'from scratch' is defined for runs that succeed
+            return
         self.end_state_check()
 
     # -- oracle: stored results at quiescence == from-scratch evaluation -------------------------------------------------
@@ -305,7 +350,7 @@ class RealWorld(pipe.PipeWorld):
 
     def result(self):
         r = super().result()
-        r['nontrivial'] = bool(self.probes['end_state_checked'] and self.units_run >= 3 and self.sim.counts['sched.reordered'] > 0)
+        r['nontrivial'] = bool((self.probes['end_state_checked'] or self.any_failure) and self.units_run >= 3 and self.sim.counts['sched.reordered'] > 0)
         r['units_run'] = self.units_run
         return r
 
